@@ -100,7 +100,8 @@ def gen_case(rng, tier, index):
         ops.append([rng.choice(["len", "get", "get", "get", "slice", "slice", "iterable", "list", "it_new", "it_next",
                                 "it_next", "it_next", "it2_next", "it_rest", "reopen"]),
                     rng.randrange(1 << 20), rng.randrange(1 << 20), rng.randrange(1 << 20)])
-    return {"content": content, "variant": variant, "index": idx_kind, "index_seed": rng.randrange(1 << 30), "ops": ops}
+    return {"content": content, "variant": variant, "index": idx_kind, "index_seed": rng.randrange(1 << 30), "ops": ops,
+            "path_form": rng.choice([None, None, None, None, "dotdot_after_symlink", "relative"])}
 
 
 def shrinkable(case):
@@ -198,6 +199,30 @@ def run_case(case, res):
     idx_path = os.path.join(d, "data.idx")
     with open(path, "wb") as f:
         f.write(case["content"].encode("utf-8"))
+    if case.get("path_form") == "dotdot_after_symlink":
+        # the file is named through "<link>/../data.txt" where <link> points to a directory elsewhere: the operating system
+        # resolves the link first, a lexical normalisation of the path would name another file (a decoy is put there)
+        real = os.path.join(d, "elsewhere", "deep")
+        os.makedirs(real, exist_ok=True)
+        link = os.path.join(d, "lnk")
+        if not os.path.islink(link):
+            os.symlink(real, link)
+        target = os.path.join(d, "elsewhere", "data.txt")
+        os.replace(path, target)
+        with open(path, "wb") as f:
+            f.write(b"decoy line 1\ndecoy line 2\n")
+        path = os.path.join(link, "..", "data.txt")
+    elif case.get("path_form") == "relative":
+        cwd = os.getcwd()
+        os.chdir(d)
+        try:
+            return _run_budgeted(case, res, "data.txt", idx_path)
+        finally:
+            os.chdir(cwd)
+    return _run_budgeted(case, res, path, idx_path)
+
+
+def _run_budgeted(case, res, path, idx_path):
     if case["content"] == "" and "MemoryMapped" in case["variant"]:
         res.count("skipped_empty_mmap")
         return
@@ -249,6 +274,26 @@ def _run(case, res, path, idx_path):
                 vals = [None, 0, 1, 2, -1, -2, n, n + 2, -n - 1, n // 2, 3]
                 sl = slice(vals[a % len(vals)], vals[b % len(vals)], [None, 1, 2, -1, -2, 3][c % 6])
                 cmp(f"f[{sl}]", outcome(lambda: obj[sl]), ("ok", ref[sl]))
+                reads_since_it = True
+            elif op == "iterable" and b % 11 == 10 and n:
+                # the selector is produced lazily from reads of the same file (f[(int(...) for ...)] style): a read nested
+                # in a read. Run in a helper thread so that a read that blocks for ever is a finding, not a hung check
+                rr = common.rng_for("c11-iterable", a)
+                sel = [rr.randrange(-n, n) for _ in range(rr.randint(1, 4))]
+
+                def lazy():
+                    for i in sel:
+                        _ = obj[i]          # a read of the same object while the outer read is in progress
+                        yield i
+                box = []
+                import threading
+                t = threading.Thread(target=lambda: box.append(outcome(lambda: obj[lazy()])), name="vf:nested", daemon=True)
+                t.start()
+                t.join(20)
+                if t.is_alive():
+                    raise Violation("operation-does-not-end", f"{case['variant']}: f[generator that reads f] did not return within 20 s "
+                                    "(a read nested in a read blocks)", {})
+                cmp(f"f[generator over {sel} that reads f itself]", box[0], ("ok", [ref[i] for i in sel]))
                 reads_since_it = True
             elif op == "iterable":
                 if n == 0:
